@@ -34,6 +34,10 @@ def render_class(name, c, names):
         cform = ["%s(const %s &)", "%s(const %s &, int x = 0)", "%s(const %s &other)", "explicit %s(const %s &)"][v] % (name, name)
     sm(c["dc"], c["dcacc"], dform)
     sm(c["cc"], c["ccacc"], cform)
+    if c.get("oc"):
+        # a constructor that needs at least one argument (spelled in ways that look like a default constructor)
+        L.append("public:")
+        L.append("  " + ["%s(int a, int b = 0);", "explicit %s(int a);", "%s(const char *s, ...);", "%s(int a, int b = 0, int c = 0);"][v] % name)
     if c["mc"] != "none":
         L.append("public:")
         L.append("  %s(%s &&)%s" % (name, name, SUFFIX[c["mc"]]))
